@@ -124,7 +124,7 @@ def catalogue(base: str, fmt: int) -> list[list]:
     md = dict(root.attrs["geff"])
     faults += [["md_drop_geff"], ["md_not_mapping"], ["md_set", "geff_version", "not-a-version"], ["md_set", "directed", "maybe"],
                ["md_del", "directed"], ["md_del", "node_props_metadata"], ["md_del", "edge_props_metadata"], ["md_del", "geff_version"],
-               ["md_set", "axes", [{"name": "x"}, {"name": "x"}]], ["md_set", "axes", [{"name": "nope"}]], ["md_set", "axes", None],
+               ["md_set", "axes", [{"name": "x"}, {"name": "x"}]], ["md_set", "axes", [{"name": "nope"}]], ["md_set", "axes", None], ["md_set", "axes", []],
                ["md_set", "unknown_key", 1], ["md_ghost", "node"], ["md_ghost", "edge"],
                # one fault per clause of the metadata model's own validators (documents stay well-typed JSON)
                ["md_set", "geff_version", "1"], ["md_set", "geff_version", "0.5.1.dev3+gabc"], ["md_set", "sphere", 7],
@@ -439,7 +439,7 @@ def conformant(tree) -> bool:
                 return False
         elif not props_conform(pg, length, pmd):
             return False
-    if md["axes"] is not None:
+    if md["axes"]:  # every axis names a stored 1-D node property without missing values (nothing to check for an empty list)
         pg = member(nodes, "props")
         if pg is None or pg["k"] != "G":
             return False
